@@ -13,7 +13,6 @@ import (
 	"github.com/unixpickle/model3d/model3d"
 	"github.com/unixpickle/model3d/numerical"
 	"pgregory.net/rapid"
-	"verifharness/gen"
 	"verifharness/kit"
 )
 
@@ -246,8 +245,8 @@ type rotCase struct {
 
 func genRot(t *rapid.T) rotCase {
 	c := rotCase{Dim: rapid.IntRange(2, 3).Draw(t, "dim"), Impl: rapid.SampledFrom([]string{"numerical", "model"}).Draw(t, "impl")}
-	c.Axis = gen.Dir3(t, "axis")
-	c.Angle = gen.F(t, -10, 10, "angle")
+	c.Axis = dir3(t, "axis")
+	c.Angle = F(t, -10, 10, "angle")
 	return c
 }
 
@@ -334,10 +333,10 @@ func genBasis(t *rapid.T) basisCase {
 		n = 4
 	}
 	mode := rapid.SampledFrom([]string{"generic", "generic", "axis", "near-axis", "equal-abs"}).Draw(t, "mode")
-	scale := gen.LogF(t, 1e-3, 1e3, "scale")
+	scale := LogF(t, 1e-3, 1e3, "scale")
 	k := rapid.IntRange(0, n-1).Draw(t, "k")
 	for i := 0; i < n; i++ {
-		x := gen.F(t, 0.05, 1, "x")
+		x := F(t, 0.05, 1, "x")
 		if rapid.Bool().Draw(t, "neg") {
 			x = -x
 		}
